@@ -27,20 +27,27 @@ DRIVER = "dm_stores"
 LEAN_MODULES = ["DaskModel.Props.C53"]
 CASE_TIMEOUT_S = 20
 LEVEL_TEXT = (
-    "Lean 4 invariant proof over all histories of the SerializableLock registry (construct with explicit or fresh "
-    "token, pickle/copy round trip, load of an old pickle, object death, weak-entry clearing at any permitted moment, "
-    "acquire/release): copies_share_lock, separate_locks_distinct, copy_shares_with_original, load_shares_with_live, "
-    "default_tokens_fresh / default_lock_separate, holding_blocks_copies / holding_does_not_block_others, gc_safe. "
-    "The model is tied to the real class by replaying random histories (identity partition, registry membership, "
-    "acquire outcomes) and by real thread contention with timeouts. threading.Lock's mutual exclusion, uuid4 "
-    "uniqueness and CPython weak-reference semantics are trusted; concurrent *creation* of locks is documented as "
-    "not thread-safe and is excluded (locks are created from one thread).")
+    "PROVED for all histories (Lean 4 invariant proof over the SerializableLock registry: construct with explicit or "
+    "fresh token, pickle/copy round trip, load of an old pickle, object death, weak-entry clearing at ANY permitted "
+    "moment, acquire/release): copies_share_lock, separate_locks_distinct, copy_shares_with_original, "
+    "load_shares_with_live, late_copy_after_first_instance_died (the first instance registered for a token dies, "
+    "copies survive, any permitted clearing happens, a pickle is loaded: the late copy holds the survivors' lock), "
+    "default_tokens_fresh / default_lock_separate, holding_blocks_copies / holding_does_not_block_others, gc_safe; "
+    "instance_registry_breaks_sharing (what-if model: a weak registry that keeps the first INSTANCE instead of the "
+    "lock loses the entry with that instance and hands out a second lock — why the referent must be the lock). "
+    "VALIDATED: the model is tied to the real class by replaying random, directed and (thorough tier) all valid "
+    "histories of <= 5 steps (identity partition by `a.lock is b.lock`, registry membership per token, acquire "
+    "outcomes, locked()), by real thread contention with timeouts, and by a lost-update stress test through "
+    "unpickled copies. TRUSTED: threading.Lock's mutual exclusion, uuid4 uniqueness, CPython weak-reference "
+    "semantics (the model's gc guard: an entry may vanish only when no live SerializableLock holds that lock); "
+    "concurrent *creation* of locks is documented as not thread-safe and is excluded (locks are created from one thread).")
 LEVEL_NOTE = ("Trusted: Lean kernel + standard axioms; threading.Lock; uuid4 never repeats; WeakValueDictionary drops "
               "an entry only when the Lock has no strong reference; the correspondence harness.")
 TECHNIQUE = "Lean 4 proof (state invariant over event histories) + history replay and real-thread contention on the real class"
 ASSUMPTIONS = ["uuid.uuid4() never returns a token already in use",
                "threading.Lock provides mutual exclusion per lock object",
                "locks are created from a single thread (documented restriction)"]
+TRUSTED = ["threading.Lock", "weakref.WeakValueDictionary", "pickle / copy protocol dispatch to __getstate__/__setstate__"]
 
 _uniq = itertools.count()
 
